@@ -417,3 +417,6 @@ def run(rep, program: Program, tier: str) -> None:
     from . import c07
 
     rep.isolate(c07.rule_r3, rep, program, prop=PROP, rule="R10")
+    # the cotangent projection uses gram(state), cached on the position but built from the metric: after an adapter
+    # replaces system.metric the states must be invalidated before momenta are re-drawn / projected (shared with C09-R10)
+    rep.isolate(c09.rule_r10, rep, program, prop=PROP, rule="R11")
